@@ -40,3 +40,42 @@ pub fn scn_wsched(out: &mut TraceOut, r: &mut R, idx: u64, heavy: bool) {
     }
     io::reset(Sched::Whole, Sched::Whole, None);
 }
+
+/// Append-only writer (justifies modelling a crashed writer's output as a truncation of the
+/// finished file, C13): after every insert the bytes the sink holds (seen through
+/// `Writer::as_ref`) are logged as (length, digests); once the writer is finished the digests of
+/// the prefixes of the final file at those lengths are logged too. TLC checks that what the sink
+/// held at any time is a prefix of the final file and that the trailer only comes with `finish`.
+pub fn scn_wprefix(out: &mut TraceOut, r: &mut R, idx: u64, heavy: bool) {
+    let (cfg, entries) = random_file(r, idx, heavy);
+    if entries.iter().any(|(k, v)| k.len() + v.len() > 200_000) {
+        out.ev(json!({"ev": "WPrefixSkip"}));
+        return;
+    }
+    let mut w = cfg.builder().build(io::Sink::new());
+    let mut seen: Vec<(usize, u32, u32)> = Vec::new();
+    for (k, v) in &entries {
+        if w.insert(k, v).is_err() {
+            out.ev(json!({"ev": "WPrefixSkip"}));
+            return;
+        }
+        let s: &io::Sink = w.as_ref();
+        let (d1, d2) = io::digest(&s.data);
+        seen.push((s.data.len(), d1, d2));
+    }
+    let Ok(sink) = w.into_inner() else {
+        out.ev(json!({"ev": "WPrefixSkip"}));
+        return;
+    };
+    let fin = sink.data;
+    let during: Vec<_> = seen.iter().map(|(l, a, b)| json!([l, a, b])).collect();
+    let of_final: Vec<_> = seen
+        .iter()
+        .map(|(l, _, _)| {
+            let l = (*l).min(fin.len());
+            let (a, b) = io::digest(&fin[..l]);
+            json!([l, a, b])
+        })
+        .collect();
+    out.ev(json!({"ev": "WPrefix", "size": fin.len(), "during": during, "final": of_final, "n": entries.len()}));
+}
